@@ -460,8 +460,11 @@ def load(doc, opts=None, source="bytesio", path=None):
         src = path
     else:
         src = io.BytesIO(data)
-    return definitions.XtcePacketDefinition.from_xtce(src, xtce_ns_prefix=load_prefix(opts),
-                                                      root_container_name=doc["root"])
+    import warnings
+    with warnings.catch_warnings():
+        warnings.simplefilter("ignore")    # e.g. the notice about the accepted legacy float-encoding spellings
+        return definitions.XtcePacketDefinition.from_xtce(src, xtce_ns_prefix=load_prefix(opts),
+                                                          root_container_name=doc["root"])
 
 
 # =================================================================================================
